@@ -24,8 +24,13 @@ func newMailer(s *Stack) authboss.Mailer {
 		// the vsmtp shim, which delivers into the world's outbox
 		vsmtp.SetDeliver(func(addr, from string, to []string, msg []byte) error {
 			s.point("smtp.SendMail")
-			defer s.guard()()
-			s.W.Mails = append(s.W.Mails, Mail{To: to, Text: string(msg)})
+			b := ""
+			if s.Split != nil && len(to) > 0 {
+				b = s.Split.Addr[to[0]]
+			}
+			defer s.guardB(b)()
+			mw := s.worldB(b)
+			mw.Mails = append(mw.Mails, Mail{To: to, Text: string(msg)})
 			return nil
 		})
 		return defaults.NewSMTPMailer("smtp.site.test:25", nil)
@@ -46,8 +51,14 @@ const logMailEnd = "--===============284fad24nao8f4na284f2n4==--\r\n"
 
 func (l logMailSink) Write(p []byte) (int, error) {
 	l.s.point("logmailer.Write")
-	defer l.s.guard()()
-	w := l.s.W
+	b := ""
+	if l.s.Split != nil && strings.HasPrefix(string(p), "To: ") {
+		if j := strings.Index(string(p), "\r\n"); j > 0 {
+			b = l.s.Split.Addr[strings.Split(string(p)[4:j], ", ")[0]]
+		}
+	}
+	defer l.s.guardB(b)()
+	w := l.s.worldB(b)
 	w.MailStream += string(p)
 	w.Mails = ParseMailStream(w.MailStream)
 	return len(p), nil
@@ -373,7 +384,7 @@ func (s *Stack) DoConc(w *World, rq Req) *Obs {
 	}
 	o.Location = o.Header.Get("Location")
 	func() {
-		defer s.guard()()
+		defer s.guardB(rq.Browser)()
 		b := w.Browsers[rq.Browser]
 		o.SessAfter, o.CookAfter = copyMap(b.Session), copyMap(b.Cookies)
 	}()
